@@ -958,13 +958,17 @@ namespace riddle
             tk = next();
 
             size_t c_pos = pos;
+            bool type_name = true; // we look ahead for a (possibly qualified) type name followed by ')'..
             do
             {
                 if (!match(ID_ID))
-                    error("expected identifier..");
+                {
+                    type_name = false;
+                    break;
+                }
             } while (match(DOT_ID));
 
-            if (match(RPAREN_ID)) // a cast..
+            if (type_name && match(RPAREN_ID)) // a cast..
             {
                 backtrack(c_pos);
                 std::vector<id_token> ids;
